@@ -209,8 +209,16 @@ func runRefsCase(r *rng) (coq string, ops []refOp, fails []OracleFailure, nOK in
 		switch kind {
 		case 0: // create a custom style
 			id := customPool[r.intn(len(customPool))]
-			st := sm.CreateCustomStyle(id, id, style.StyleTypeParagraph, "Normal")
-			st.RunPr = &style.RunProperties{Bold: &style.Bold{}}
+			if r.chance(30) && !sm.StyleExists(id) {
+				// the other way of creating a style: the quick style API
+				if _, err := style.NewQuickStyleAPI(sm).CreateQuickStyle(style.QuickStyleConfig{ID: id, Name: id, Type: style.StyleTypeParagraph, BasedOn: "Normal",
+					ParagraphConfig: &style.QuickParagraphConfig{Alignment: "center", SpaceBefore: 6}, RunConfig: &style.QuickRunConfig{Bold: true}}); err != nil {
+					addFail("quick_style", "", fmt.Sprintf("CreateQuickStyle(%q): %v", id, err))
+				}
+			} else {
+				st := sm.CreateCustomStyle(id, id, style.StyleTypeParagraph, "Normal")
+				st.RunPr = &style.RunProperties{Bold: &style.Bold{}}
+			}
 			w.apiStyles[id] = true
 			ops = append(ops, refOp{Kind: "AddCustom", ID: id})
 			steps = append(steps, fmt.Sprintf("Do (AddCustom %d%%N)", w.atom(id)))
